@@ -205,6 +205,56 @@ def main():
                 if mb != calls:
                     ck.mismatch("FFRUN", {"calls": hist_json}, calls, mb)
                 ck.count("histories")
+        # ---- ordered pairs: B typed right after A by the SAME cached assignment object (defaults, no change of file names in between) gets what a
+        # freshly built assignment object gives B; every ordered pair of a set of chemically different molecules
+        pool = []
+        for t, mol in mols:
+            with warnings.catch_warnings():
+                warnings.simplefilter("ignore")
+                try:
+                    mg = mol.generate(rng=Recorder(ck.seed * 37 + len(pool)))
+                except Exception:
+                    continue
+            if mg.fully_generated and mg._mol.GetNumAtoms() <= 80:
+                pool.append((t, mg))
+        if quick:
+            pool = pool[:13]
+
+        def typed(mg):
+            try:
+                ff, _ = mg.get_forcefield_types(None, None)
+            except ffh.FfAssignmentError as exc:
+                ff = exc.incomplete_ff_dict
+            return {i: type_name(ffh._global_assignment_class, prm) for i, prm in ff.items()}
+
+        def reset():
+            ffh._global_assignment_class = None
+            ffh._global_nonbonded_itp_file = None
+            ffh._global_smarts_rule_file = None
+        fresh = []
+        for t, mg in pool:
+            reset()
+            try:
+                fresh.append(typed(mg))
+            except Exception as exc:
+                fresh.append(None)
+        for ia, (ta, mga) in enumerate(pool):
+            for ib, (tb, mgb) in enumerate(pool):
+                if ia == ib or fresh[ia] is None or fresh[ib] is None:
+                    continue
+                reset()
+                try:
+                    typed(mga)
+                    got = typed(mgb)
+                except Exception as exc:
+                    ck.fail("typing-raises", {"first": ta, "then": tb}, f"{type(exc).__name__}: {exc}")
+                    continue
+                ck.evaluations += 1
+                ck.count("ordered-pairs")
+                if got != fresh[ib]:
+                    diff = [(i, fresh[ib].get(i), got.get(i)) for i in sorted(set(fresh[ib]) | set(got)) if fresh[ib].get(i) != got.get(i)][:4]
+                    ck.fail("history-or-file-dependence", {"first": ta, "then": tb}, f"typed right after the first molecule, the second gets (atom, fresh, now) {diff}")
+        reset()
         # ---- the id tables of the reader (fresh assigner on the bundled files): model vs code, and the table-level oracle
         ffh._global_assignment_class = None
         ffh._global_nonbonded_itp_file = None
